@@ -9,7 +9,7 @@ from .. import transforms as tf
 
 ID = "C09"
 MODULE = "LasioProofs.Props.C09"
-EXTRA_MODULES = ["LasioProofs.Props.C09Redelim"]
+EXTRA_MODULES = ["LasioProofs.Props.C09Redelim", "LasioProofs.Props.C09RedelimFile"]
 RULE = ("(0) first, on every run, the inputs of the repaired defects: DLM COMMA rows `1,2,3` re-padded with blanks and back; a blank line "
         "inserted between two data rows of a file without ~C read with engine='normal'; a '#' comment containing a hyphen inserted into a data "
         "section whose every row has a date `2018-05-22`; 21 comment lines inserted at the start of ~A; a 14-curve WRAP=YES file re-wrapped at "
@@ -572,7 +572,9 @@ LEVEL_TEXT = ("Machine-checked Lean 4 theorems about the executable models of th
 LEVEL_NOTE = ("Props/C09Redelim.lean: re-delimiting and TAB/COMMA re-padding of NUMERIC cells (NumCells/NumBody, SepsOK, FtStripOn/Converts as "
               "named hypotheses with counter-examples): line level (C09_redelim_line*), typed columns, window level (C09_redelim_engine, "
               "C09_redelim_sniff, C09_redelim_readData_* incl. the numpy engine), whole file for repadLine with TAB/COMMA "
-              "(C09_repad_delimited_file, same conclusion as C09_step); for .redelim the whole-file statement is proved up to the header facts of "
-              "the changed DLM item (C09_redelim_file_of_header: they enter as hypotheses), that last step is covered by oracle and correspondence "
-              "only. Known findings reproduced on every run: dlm-pad-text, rewrap-hyphen-rule, "
+              "(C09_repad_delimited_file, same conclusion as C09_step). Props/C09RedelimFile.lean: the WHOLE-FILE statement for .redelim "
+              "(C09_redelim_file_replace: the DLM item line of ~Version replaced; C09_redelim_file_insert: a DLM line inserted): readFull of the "
+              "re-delimited document succeeds, steer differs in dlm only, the ~Version items differ in the DLM item only, every other section "
+              "and the curves of the data section are equal; document shape: ~Version first, one data section; counter-examples for a second "
+              "DLM item, a second ~V section, two data sections. Known findings reproduced on every run: dlm-pad-text, rewrap-hyphen-rule, "
               "numpy-midline-hash. The numeric services (token->float table, NULL->float) are parameters of the model.")
